@@ -32,7 +32,9 @@ RULE = ("definition sets: generated inheritance forests (1-7 definitions, depth 
         "adversarial (duplicate column names, C3-inconsistent overrides, double override) / shipped (the 14 "
         "shipped files in shuffled orders, load_all_schemes with extras extending built-ins); every set is "
         "loaded in every order when it has <= 4 definitions (<= 5 in the boundary stream), else in 8 sampled "
-        "orders; a case is non-trivial when at least two orders were run and either a derived definition was "
+        "orders; stream resolve (8%): extras sorting before/after the basic scheme of their version, versions without a "
+        "basic scheme, registered in a fresh interpreter, then lookups by version alone / annotation alone / pair through "
+        "find_scheme_class, find_scheme and MafHeader.scheme(); a case is non-trivial when at least two orders were run and either a derived definition was "
         "resolved or an error was raised; distinct by hash of files+runs")
 ASSUMPTIONS = [
     "version/annotation strings follow the documented patterns gdc-N.N.N / gdc-N.N.N-word or do not start with 'gdc-' "
@@ -176,7 +178,17 @@ def enc_world(files, names, with_builtins):
     return [[S(t) for t in types], [[S(k), [S(x) for x in v]] for k, v in table], fs, b]
 
 
+QKIND = {"findcls": 1, "find": 2}
+
+
 def to_model(case):
+    if "resolve" in case:
+        # a history on a fresh registry (the cluster's second request form): one registration, then lookups
+        rs = case["resolve"]
+        ops = [[0, [S(n) for n in rs["extra"]]]]
+        for k, v, a in rs["queries"]:
+            ops.append([QKIND["find" if k == "hdr" else k], [] if v is None else [S(v)], [] if a is None else [S(a)]])
+        return [1, enc_world(case["files"], rs["extra"], True), [], ops]
     names = []
     for _, order in case["runs"]:
         names.extend(order)
@@ -203,7 +215,27 @@ def dec_exn(s):
     return EXCODE.get(s[0], str(s[0]))
 
 
+def _dec_short(s):
+    if s[0] == 0:
+        return ["norestr"]
+    return [U(s[1]), U(s[2])]
+
+
 def from_model(case, sx):
+    if "resolve" in case:
+        table, steps = sx
+        (o0, _), rest = steps[0], steps[1:]
+        reg = {"exc": dec_exn(o0[1])} if o0[0] == 0 else {"ok": sorted(_dec_short(x) for x in o0[1])}
+        ans = []
+        for (k, v, a), (o, _) in zip(case["resolve"]["queries"], rest):
+            if o[0] == 0:
+                r = {"exc": dec_exn(o[1])}
+                if k == "hdr" and r["exc"] == "ValueError":
+                    r = {"ok": None}           # MafHeader.scheme(): except ValueError: return None
+            else:
+                r = {"ok": _dec_short(o[1][0]) if o[1] else None}
+            ans.append(r)
+        return {"resolve": {"reg": reg, "answers": ans}}
     out = []
     for (mode, _), r in zip(case["runs"], sx):
         if r[0] == 0:
@@ -313,7 +345,63 @@ def _real(term, byname):
     return type(b.__name__, (e, b), {})
 
 
+def _resolve_here(case):
+    """runs in an interpreter of its own: register the extras, then look pairs up"""
+    import maflib.scheme_factory as sf
+    from maflib.schemes import NoRestrictionsScheme
+    rs = case["resolve"]
+    os.makedirs(WORK, exist_ok=True)
+    wd = tempfile.mkdtemp(prefix="c14r_", dir=WORK)
+
+    def short(s):
+        c = s if isinstance(s, type) else type(s)
+        return ["norestr"] if c is NoRestrictionsScheme else [c.version(), c.annotation_spec()]
+
+    try:
+        write_files(wd, case["files"])
+        try:
+            l = sf.all_schemes(extra_filenames=[real_path(wd, n) for n in rs["extra"]])
+            reg = {"ok": sorted(short(s) for s in l)}
+        except Exception as e:
+            reg = {"exc": excname(e)}
+        ans = []
+        for k, v, a in rs["queries"]:
+            try:
+                if k == "findcls":
+                    r = sf.find_scheme_class(version=v, annotation=a)
+                elif k == "find":
+                    r = sf.find_scheme(version=v, annotation=a)
+                else:
+                    from maflib.header import MafHeader
+                    lines = ([] if v is None else ["#version " + v]) + ([] if a is None else ["#annotation.spec " + a])
+                    r = MafHeader.from_lines(lines).scheme()
+                ans.append({"ok": None if r is None else short(r)})
+            except Exception as e:
+                ans.append({"exc": excname(e)})
+    finally:
+        shutil.rmtree(wd, ignore_errors=True)
+    return {"resolve": {"reg": reg, "answers": ans}}
+
+
+def _resolve_isolated(case):
+    """the registry is process-global: resolution cases get a fresh interpreter"""
+    import subprocess
+    import fw
+    code = ("import sys,json; sys.path.insert(0,%r); sys.path.insert(0,%r); sys.path.insert(0,%r);"
+            "import logging; logging.disable(logging.CRITICAL); import C14;"
+            "print('\\n@@R@@'+json.dumps(C14._resolve_here(json.loads(sys.stdin.read()))))"
+            % (fw.VERIF + "/harness", fw.VERIF + "/harness/props", fw.REPO))
+    env = dict(os.environ, PYTHONHASHSEED="0", PYTHONPATH=fw.REPO, VERIF_REPO=fw.REPO)
+    p = subprocess.run([fw.PY, "-c", code], input=json.dumps(case), capture_output=True, text=True, env=env, timeout=300)
+    for line in p.stdout.splitlines():
+        if line.startswith("@@R@@"):
+            return json.loads(line[5:])
+    raise RuntimeError("resolution subprocess failed: " + (p.stderr or p.stdout)[-500:])
+
+
 def run_impl(case):
+    if "resolve" in case:
+        return _resolve_isolated(case)
     import maflib.scheme_factory as sf
     from maflib.column_types import get_column_types, RequireNullValue
     from maflib.schemes import NoRestrictionsScheme
@@ -382,6 +470,8 @@ def run_impl(case):
 
 
 def comparable(obs):
+    if "resolve" in obs:
+        return obs
     return {"runs": obs["runs"]}
 
 
@@ -391,6 +481,13 @@ def documented(s):
 
 
 def skip_compare(case):
+    if "resolve" in case:
+        return any(sp["kind"] == "json" and not (documented(sp["data"].get("version", "")) and documented(sp["data"].get("annotation-spec", "")))
+                   for sp in case["files"].values())
+    return _skip_compare_runs(case)
+
+
+def _skip_compare_runs(case):
     """load_all_schemes sorts by keys parsed from version/annotation; strings that start with
     gdc- but leave the documented patterns give keys of another shape (what list.sort then
     compares, and whether int() accepts the pieces, is outside the model - see ASSUMPTIONS)"""
@@ -518,7 +615,44 @@ def _as_map(run, mode):
     return {v[1]: v for v in run["ok"] if v != ["norestr"]}
 
 
+def _oracle_resolve(case, obs):
+    """lookup rules: by pair; by annotation alone; by version alone = the basic scheme (annotation = version)"""
+    out = []
+    rs = case["resolve"]
+    sp = spec_eval(case, "load_all", rs["extra"])
+    r = obs["resolve"]
+    if sp["ill"]:
+        if "ok" in r["reg"]:
+            out.append("ill-formed-set-accepted (%s) by all_schemes" % ",".join(sorted(set(sp["ill"]))))
+        return out
+    if sp["unclean"] or any(not documented(a) or not documented(v) for a, v in sp["versions"].items()):
+        return out
+    if "exc" in r["reg"]:
+        if not sp["terms"]:
+            out.append("well-formed-set-rejected %s by all_schemes" % r["reg"]["exc"])
+        return out
+    pairs = [[v, a] for a, v in sp["versions"].items()]
+    if sorted(pairs + [["norestr"]]) != r["reg"]["ok"]:
+        out.append("all-schemes-pairs-wrong got %s" % [p for p in r["reg"]["ok"] if p not in pairs][:4])
+    for (k, v, a), ans in zip(rs["queries"], r["answers"]):
+        if not v and not a:
+            want = {"exc": "ValueError"} if k != "hdr" else {"ok": None}
+        elif not a:
+            want = {"ok": [v, v] if [v, v] in pairs else None}
+        elif not v:
+            want = {"ok": [sp["versions"][a], a] if a in sp["versions"] else
+                    (["norestr"] if a == NOREST[1] and k == "findcls" else None)}
+        else:
+            want = {"ok": [v, a] if [v, a] in pairs else (["norestr"] if [v, a] == NOREST and k == "findcls" else None)}
+        if ans != want:
+            what = "version-only" if (v and not a) else "annotation-only" if (a and not v) else "pair" if v else "empty"
+            out.append("%s-lookup-wrong %s(%r, %r) gave %s, the rule says %s" % (what, k, v, a, ans, want))
+    return out[:8]
+
+
 def oracle(case, obs):
+    if "resolve" in case:
+        return _oracle_resolve(case, obs)
     out = []
     runs = obs["runs"]
     for p in obs.get("_acc", []):
@@ -599,11 +733,16 @@ def classify(case, obs):
     n = len(case["files"])
     if obs is None:
         return case["stream"] + "/harness-error"
+    if "resolve" in case:
+        return "%s/defs=%s/%s" % (case["stream"], n, "registered" if "ok" in obs["resolve"]["reg"] else obs["resolve"]["reg"]["exc"])
     kinds = set("ok" if "ok" in r else r["exc"] for r in obs["runs"])
     return "%s/defs=%s/%s" % (case["stream"], n if n < 6 else "6+", "+".join(sorted(kinds)) or "no-runs")
 
 
 def nontrivial(case, obs):
+    if "resolve" in case:
+        return "ok" in obs["resolve"]["reg"] and len(case["files"]) >= 1 and \
+            any(a.get("ok") is not None for a in obs["resolve"]["answers"])
     if len(obs["runs"]) < 2:
         return False
     if any("exc" in r for r in obs["runs"]):
@@ -917,9 +1056,59 @@ def _gen_shipped(rng):
     return _case("shipped", files, _perm_runs(rng, files, mode="load_all", sample=3), note)
 
 
+def _gen_resolve(rng):
+    """extras whose annotations sort before / after the basic scheme of their version, versions with
+    and without a basic scheme; then lookups by version alone, annotation alone, pair, through
+    find_scheme_class / find_scheme / MafHeader.scheme()"""
+    cols = lambda k: [["r%d" % i, rng.choice(["StringColumn", "IntegerColumn", "NullableStringColumn"])] for i in range(k)]
+    mk = lambda v, a, ext="None": {"version": v, "annotation-spec": a, "extends": ext, "columns": cols(rng.randint(1, 3)), "filtered": "None"}
+    defs = []
+    pick = rng.sample(range(6), rng.choice([1, 2, 2, 3]))
+    for k in pick:
+        if k == 0:      # sorts before the shipped basic scheme gdc-1.0.0 / gdc-1.0.0
+            defs.append(mk("gdc-1.0.0", rng.choice(["gdc-0.9.0-legacy", "gdc-0.1.0", "a-first"]), rng.choice(["None", "gdc-1.0.0"])))
+        elif k == 1:    # a version without a basic scheme
+            defs.append(mk("lab-1", "lab-1-extended"))
+            if rng.random() < 0.5:
+                defs.append(mk("lab-1", "lab-0-other"))
+        elif k == 2:    # a new version with its own basic scheme and a sibling that sorts before it
+            defs.append(mk("gdc-5.0.0", "gdc-5.0.0"))
+            defs.append(mk("gdc-5.0.0", rng.choice(["gdc-4.0.0-x", "gdc-5.0.0-y", "aaa"]), rng.choice(["None", "gdc-5.0.0"])))
+        elif k == 3:    # sorts after everything shipped
+            defs.append(mk("gdc-1.0.0", "gdc-9.0.0-late", "gdc-1.0.0-public"))
+        elif k == 4:    # a basic scheme whose version is not a gdc- string
+            defs.append(mk("zeta", "zeta"))
+            defs.append(mk("zeta", "alpha"))
+        else:           # a new version whose only scheme is not basic and sorts first of all
+            defs.append(mk("gdc-0.5.0", "gdc-0.5.0-only"))
+    seen = set()
+    defs = [d for d in defs if not (d["annotation-spec"] in seen or seen.add(d["annotation-spec"]))]
+    files = _files_of(defs, prefix="r")
+    extra = list(files)
+    rng.shuffle(extra)
+    versions = sorted(set(d["version"] for d in defs) | {"gdc-1.0.0", "gdc-7.0.0"})
+    annots = sorted(set(d["annotation-spec"] for d in defs) | {"gdc-1.0.0-public", "gdc-1.0.0", "nope"})
+    q = []
+    for v in versions:
+        for k in ("findcls", "find", "hdr"):
+            q.append([k, v, None])
+        q.append(["findcls", v, ""])
+    for a in annots:
+        q.append([rng.choice(["findcls", "find", "hdr"]), None, a])
+    for d in defs:
+        q.append([rng.choice(["findcls", "find", "hdr"]), d["version"], d["annotation-spec"]])
+    q.append([rng.choice(["findcls", "find", "hdr"]), None, None])
+    q.append(["findcls"] + NOREST)
+    return {"stream": "resolve", "note": "lookup rules", "files": files, "runs": [], "resolve": {"extra": extra, "queries": q}}
+
+
 def generate(rng, n):
     out = []
     for i in range(n):
+        r = rng.random()
+        if r < 0.08:
+            out.append(_gen_resolve(rng))
+            continue
         r = rng.random()
         if r < 0.36:
             out.append(_gen_valid(rng))
@@ -966,10 +1155,26 @@ def corpus():
     c = _case("corpus", f, _perm_runs(None, f), "OneBasedIntegerColumn redefined with ZeroBasedIntegerColumn accepts 0; RequireNullValue overrides are conjunctive")
     c["probe_conjunctive"] = True
     out.append(c)
+    L = {"version": "gdc-1.0.0", "annotation-spec": "gdc-0.9.0-legacy", "extends": "None", "columns": [["r0", "StringColumn"]], "filtered": "None"}
+    X = {"version": "lab-1", "annotation-spec": "lab-1-extended", "extends": "None", "columns": [["r0", "StringColumn"]], "filtered": "None"}
+    f = _files_of([L, X], prefix="r")
+    out.append({"stream": "corpus", "note": "a version-only lookup is the basic scheme of that version, not the first scheme of that version",
+                "files": f, "runs": [], "resolve": {"extra": list(f), "queries": [
+                    ["findcls", "gdc-1.0.0", None], ["find", "gdc-1.0.0", None], ["hdr", "gdc-1.0.0", None],
+                    ["findcls", "lab-1", None], ["find", "lab-1", None], ["hdr", "lab-1", None],
+                    ["find", None, "gdc-0.9.0-legacy"], ["find", "lab-1", "lab-1-extended"]]}})
     return out
 
 
 def shrink(case):
+    if "resolve" in case:
+        rs = case["resolve"]
+        for i in range(len(rs["queries"])):
+            yield dict(case, resolve=dict(rs, queries=rs["queries"][:i] + rs["queries"][i + 1:]))
+        for n in list(rs["extra"]):
+            yield dict(case, files={k: v for k, v in case["files"].items() if k != n},
+                       resolve=dict(rs, extra=[x for x in rs["extra"] if x != n]))
+        return
     files = case["files"]
     names = list(files)
     # drop a file (and rebuild the runs as all orders of what is left)
